@@ -154,7 +154,7 @@ class CFG:
                 he = self._new('except', h)
                 he.succ.append(('next', self._seq(h.body, kin)))
                 disp.succ.append(('next', he.id))
-                if h.type is None or (isinstance(h.type, ast.Name) and h.type.id == 'BaseException'):
+                if h.type is None or (isinstance(h.type, ast.Name) and h.type.id in ('BaseException', 'Exception')):
                     catch_all = True
             if not catch_all:
                 disp.succ.append(('exc', kin.exc))
@@ -244,7 +244,11 @@ class CFG:
 
 def subnodes(cfg: CFG, n: Node, include_lambda_bodies: bool = False):
     """All AST nodes evaluated at CFG node n, in source order, not descending into nested defs / lambdas."""
-    out = []
+    key = '_sub1' if include_lambda_bodies else '_sub0'
+    c = n.info.get(key)
+    if c is not None:
+        return c
+    out = n.info[key] = []
     for e in cfg.node_exprs(n):
         stack = [e]
         while stack:
